@@ -650,6 +650,51 @@ def _oniter_bind(vec=False):
             "@eqx.filter_vmap": Prim(vmapped), "@eqx.if_array": Prim(lambda ex, n, a, k: Static("if_array")), "@eqx.tree_at": Prim(_tree_at_state)}
 
 
+def _dqniter_bind():
+    b = _oniter_bind()
+
+    def collect1(ex, n, a, k):
+        if len(a) != 5 or k:
+            fail(n, "collect_rollout call form")
+        return Sc("O", f"(collect1 {a[1].t} {a[2].t} {a[4].t})")
+
+    def vmapped(ex, n, a, k):
+        want = "(None, None, eqx.if_array(0), None, 0)"
+        got = ast.unparse([kw.value for kw in n.keywords if kw.arg == "in_axes"][0]) if any(kw.arg == "in_axes" for kw in n.keywords) else None
+        if len(a) != 1 or got != want or not isinstance(a[0], Prim):
+            fail(n, f"filter_vmap of collect_rollout with in_axes {got} (expected {want})")
+
+        def call(ex2, n2, a2, k2):
+            if len(a2) != 5 or k2 or not (isinstance(a2[4], Vec) and a2[4].ety == "K"):
+                fail(n2, "vmapped collect_rollout call form")
+            return Sc("O", f"(collectN {a2[1].t} {a2[2].t} {materialise(a2[4])})")
+        return Prim(call)
+
+    def dqn_train(ex, n, a, k):
+        if len(a) != 4 or set(k) != {"key"}:
+            fail(n, "dqn_train call form")
+        x = f"(train {a[0].t} {a[1].t} {a[2].t} {a[3].t} {k['key'].t})"
+        return (Sc("O", f"(fst (fst {x}))"), Sc("O", f"(snd (fst {x}))"), Sc("O", f"(snd {x})"))
+    selfo = b["self"]
+    selfo.fields["collect_rollout"] = Prim(collect1)
+    selfo.fields["dqn_train"] = Prim(dqn_train)
+    selfo.fields["target_update_interval"] = Z("(Z.of_nat interval)")
+    selfo.fields["per_iteration"] = _method("algorithm/dqn.py", "DQN", "per_iteration", selfo)
+    selfo.fields["per_iteration"].closure.scope = {"filter_cond": BUILTIN_COND}
+    b["state"] = _alg_state({"iteration_count": Z("(Z.of_nat count)"), "step_state": O("ss"), "env": O("env"), "policy": O("pol"), "opt_state": O("opt"),
+                             "callback_state": O("cbs"), "target_policy": O("target")})
+    b["@eqx.filter_vmap"] = Prim(vmapped)
+    return b
+
+
+def _dqniter_out(res, ex):
+    if not (isinstance(res, Obj) and res.name == "alg_state"):
+        raise TranslateError("iteration no longer returns the algorithm state")
+    f = res.fields
+    return [("count", "Z", term_of(f["iteration_count"], "Z")), ("policy", "X", term_of(f["policy"])), ("target", "X", term_of(f["target_policy"])),
+            ("step_state", "SS", term_of(f["step_state"]))]
+
+
 def _oniter_out(res, ex):
     if not (isinstance(res, Obj) and res.name == "alg_state"):
         raise TranslateError("iteration no longer returns the algorithm state")
@@ -1055,6 +1100,11 @@ KERNELS = {
                    "{ST X CB SCB : Type} (a_reset : kpath -> ST) (a_iter : ST -> kpath -> ST) (st_with_cb : ST -> CB -> ST) (st_cb : ST -> CB) (st_scb : ST -> SCB) "
                    "(st_pol : ST -> X) (cb_start cb_end : CB -> SCB -> X -> kpath -> CB) (N T total : Z) (k : kpath)",
                    lambda res, ex: [("policy", "X", term_of(res))], prims={"filter_scan": Prim(_p_filter_scan_state)}),
+            Kernel("dqniter", "algorithm/dqn.py", "DQN", "iteration", _dqniter_bind,
+                   "{SS X OS BUF LOG CB SCB : Type} (N interval count : nat) (collect1 : X -> SS -> kpath -> SS) (collectN : X -> SS -> list kpath -> SS) "
+                   "(ss_buf : SS -> BUF) (ss_cb : SS -> SCB) (train : X -> OS -> BUF -> X -> kpath -> X * OS * LOG) (cb_iter : CB -> Z -> SCB -> X -> OS -> kpath -> CB) "
+                   "(ss : SS) (pol target : X) (opt : OS) (cbs : CB) (k : kpath)",
+                   _dqniter_out, opaque_attrs={"callback_state": "ss_cb", "buffer": "ss_buf"}),
             Kernel("sactrain", "algorithm/sac.py", "SAC", "sac_train", _sactrain_bind,
                    "{X : Type} (autotune : bool) (freq count : nat) (policy policy' opt opt' qf1 qf1' qf2 qf2' q_opt q_opt' alpha_opt alpha_opt' : X) (la la' : R)",
                    _sactrain_out)],
